@@ -213,7 +213,8 @@ class Check(CheckBase):
             "'..', absolute path into the watched area, quotes, control and non-ASCII characters, '(2)' forms, empty stems) as "
             "Roland sample / performance / volume names (also below the pseudo volume that collects orphan performances, with and "
             "without real volumes on the disk) and as cue TITLEs; export into <scratch>/w/deep/dest with the "
-            "parents watched; singles, doubled names and neighbouring (thorough: all) pairs again on an image object whose root "
+            "parents watched; 201-entry AKAI volumes with a pair / a duplicate whose stem is owned by a sibling 2..200 places away; "
+            "singles, doubled names and neighbouring (thorough: all) pairs again on an image object whose root "
             "and first-level items were listed before the export. Oracle: nothing created outside dest; Exported lines pairwise distinct and as many as files; "
             "every component non-empty, [\\w -.#()] only, begins with \\w, does not end in space or dot. non-trivial = two "
             "names equal after removing everything but \\w, or a separator / dot-dot in a name")
@@ -277,6 +278,18 @@ class Check(CheckBase):
             for t in (["../x", ABS], ["a/b", "a\\b"], ["a", "a"]):
                 cases.append({"kind": "cdda", "names": t, "dest": dest})
             rol.append({"kind": "roland_sample", "names": ["../x", "a"], "dest": dest})
+        # large directories (the uniqueness of a name must hold over the WHOLE directory, however it is processed): 201
+        # siblings, an L/R pair somewhere and a sample (or a second pair) that already owns the pair's stem somewhere else
+        def big(n, places):
+            names = ["F%03d" % k for k in range(n)]
+            for pos, nm in places:
+                names[pos] = nm
+            return names
+        for p in (2, 60, 63, 64, 65, 126, 127, 128, 129, 130, 199, 200):
+            cases.append({"kind": "akai_files", "names": big(201, [(0, "PAD-L"), (1, "PAD-R"), (p, "PAD")])})
+            cases.append({"kind": "akai_files", "names": big(201, [(p - 2, "PAD-L"), (p - 1, "PAD-R"), (0, "PAD")])})
+            cases.append({"kind": "akai_files", "names": big(201, [(0, "PAD-L"), (1, "PAD-R"), (p - 1, "PAD L"), (p, "PAD R")])})
+            cases.append({"kind": "akai_files", "names": big(201, [(0, "DUP"), (p, "DUP")])})
         # the image object was listed before the export (names are made when items are first realised)
         for alpha, kind in ((AKAI_FILE, "akai_files"), (AKAI_DIR, "akai_dirs"), (cue_host, "cdda")):
             for x in alpha:
